@@ -1014,3 +1014,34 @@ pub fn gen_partials(rng: &mut Rng, base: &GenCfg, corrupt_per_8: u32, absent_per
 pub fn invocation_name(stored: &str) -> String {
     stored.strip_suffix(".liquid").unwrap_or(stored).to_string()
 }
+
+/// Insert a data-dependent abort node into a randomly chosen (preferably nested) body, after at
+/// least one other node, so that a render fails *midway*: inside a loop, a capture, an ifchanged
+/// block, a conditional branch — wherever the dice land.
+pub fn inject_abort(nodes: &mut Vec<Node>, rng: &mut Rng) -> bool {
+    // collect the number of bodies reachable (pre-order), pick one, then walk again to mutate
+    fn count(nodes: &[Node]) -> usize {
+        1 + nodes.iter().map(|n| bodies(n).iter().map(|b| count(b)).sum::<usize>()).sum::<usize>()
+    }
+    fn walk(nodes: &mut Vec<Node>, target: &mut usize, rng: &mut Rng) -> bool {
+        if *target == 0 {
+            let kind = if rng.chance(1, 2) { AbortKind::DataDependent } else { AbortKind::DivZero };
+            let at = if nodes.is_empty() { 0 } else { 1 + rng.below(nodes.len()) };
+            nodes.insert(at, Node::Abort(kind));
+            return true;
+        }
+        *target -= 1;
+        for n in nodes.iter_mut() {
+            for b in bodies_mut(n) {
+                if walk(b, target, rng) {
+                    return true;
+                }
+            }
+        }
+        false
+    }
+    let total = count(nodes);
+    // prefer nested bodies: index 0 is the top level
+    let mut target = if total > 1 && rng.chance(4, 5) { 1 + rng.below(total - 1) } else { 0 };
+    walk(nodes, &mut target, rng)
+}
